@@ -99,7 +99,48 @@ def gen(tier, rng):
                 ops.append("it")
         ops += ["gp0", "gp1", "gp2", "gp255", "gs0", "gs1", "gs31", "it"]
         cases.append("ctx " + ",".join(ops))
+    # a stored PPS replaced by an almost identical one (one structured edit), for every slice-group map type
+    for i in range(400 if tier == "quick" else 8000):
+        s = g.gen_sps(rng, sps_id=0, small=True, force={"w": 11, "h": 11})
+        p = g.gen_pps(rng, s, pps_id=rng.choice([0, 3]), force={"num_slice_groups_minus1": rng.choice([1, 2, 3, 6]), "map_type": i % 7})
+        ops = ["S" + hx(g.sps_nal(s, rng)), "P" + hx(g.pps_nal(p, rng))]
+        q = p
+        for _ in range(rng.randrange(1, 4)):
+            q = edits(rng, q)
+            ops.append("P" + hx(g.pps_nal(q, rng)))
+            ops.append("gp%d" % p["id"])
+        ops.append("it")
+        cases.append("ctx " + ",".join(ops))
     return cases
+
+
+def edits(rng, p):
+    """a PPS differing from p by one small structured edit (a list one element longer / shorter, one number changed, one
+    flag flipped): a re-put that is *almost* the stored value must still replace it"""
+    import copy
+    q = copy.deepcopy(p)
+    k = rng.randrange(6)
+    n = q["num_slice_groups_minus1"]
+    if k == 0 and n >= 1 and n < 7:
+        q["num_slice_groups_minus1"] = n + 1
+        q["run_lengths"] = q["run_lengths"] + [q["run_lengths"][-1]]
+        q["rects"] = q["rects"] + [q["rects"][-1] if q["rects"] else (0, 0)]
+    elif k == 1 and n >= 2:
+        q["num_slice_groups_minus1"] = n - 1
+        q["run_lengths"] = q["run_lengths"][:-1]
+        q["rects"] = q["rects"][:-1]
+    elif k == 2:
+        q["l0"] = (q["l0"] + 1) % 32
+    elif k == 3:
+        q["cabac"] = not q["cabac"]
+    elif k == 4:
+        q["chroma_qp_index_offset"] = -q["chroma_qp_index_offset"] if q["chroma_qp_index_offset"] else 1
+    else:
+        q["weighted_bipred_idc"] = (q["weighted_bipred_idc"] + 1) % 3
+    bits = {1: 1, 2: 2, 3: 2, 4: 3, 5: 3, 6: 3, 7: 3}.get(q["num_slice_groups_minus1"], 0)
+    q["group_id_bits"] = bits
+    q["group_ids"] = [x & ((1 << bits) - 1) if bits else 0 for x in q["group_ids"]]
+    return q
 
 
 def extra_check(r):
